@@ -8,6 +8,11 @@
 pub uninterp spec fn sp_perm_tt(tt: u16, perm: [u8; 4]) -> u16;
 pub uninterp spec fn sp_flip(tt: u16, mask: u8) -> u16;
 
+/// O5 (README): std integer helpers Verus has no spec for. Unused at HEAD; declared so that an edit of npn_canonical that starts using
+/// count_ones is still ingested (and then judged by the contract) instead of making the run undecided. Only the range is assumed.
+pub assume_specification [u16::count_ones] (x: u16) -> (r: u32)
+    ensures r <= 16;
+
 /// NpnTransform::apply as a spec function (same composition as the exec body; `apply` is proved against it)
 pub open spec fn sp_apply(t: NpnTransform, tt: u16) -> u16 {
     let a = sp_flip(sp_perm_tt(tt, t.perm), t.in_neg);
